@@ -1030,8 +1030,17 @@ class NumpyArray(_ContentMethods, Content):
 
         array = _as_pyarray(anyarray)
 
+        if not hasattr(type(anyarray), "__buffer__"):
+            # !PyObject_CheckBuffer(anyarray): anyarray does not support buffer protocol
+            if hasattr(array, "dtype") and str(_pydtype(array.dtype)) != "":
+                data_type = _dtype_str_to_format(_pydtype(array.dtype))
+                if data_type == "M" or data_type == "m":
+                    # it's a datetime or timedelta
+                    self._h = NumpyArray._from_datetime_handle(array, identities, parameters)
+                    return
+
         if array.dtype.kind in "Mm":
-            # reachable when the object had no 'dtype' attribute: array.request() has no PEP 3118 format
+            # array.request(): NumPy does not export datetime64/timedelta64 through PEP 3118
             raise ValueError("cannot include dtype '%s' in a buffer" % array.dtype.char)
         info = memoryview(array)
         if info.ndim == 0:
